@@ -1,7 +1,7 @@
 import SlipVerif.Model.Num
 import SlipVerif.Driver.Util
 --! namespace: num
-/- line protocol for C05:  num <op> <operand>*   operands: q:<n>[/<d>] | d:<hexbits> | s:<hexbits> -/
+/- line protocol for C05:  num <op> <operand>*   operands: q:<n>[/<d>] | d:<hexbits> | s:<hexbits> | l:<prec>:<n>[/<d>] -/
 namespace SlipVerif.Driver.Num
 open SlipVerif.Num SlipVerif.Driver
 
@@ -10,6 +10,7 @@ def parseOperand (s : String) : Option Rat :=
   | ["q", v] => parseRat? v
   | ["d", h] => (parseHexNat? h).bind ofBits64
   | ["s", h] => (parseHexNat? h).bind ofBits32
+  | ["l", _prec, v] => parseRat? v   -- long-float: exact dyadic value, decoded by the harness
   | _ => none
 
 def showVal (r : Rat) : String := s!"{typeOf r}:{showRat r}"
